@@ -278,7 +278,7 @@ def check_refresh_aggregates(ctx, ra, R):
         fr = r.state.frames[0]
         for fld, role in want.items():
             hv = acc_local[fld]
-            newv = fr.locals.get(hv[2])
+            newv = fr.locals.get(hv[2]) if isinstance(hv[2], int) else r.state.heap.get((hv[2][1], hv[2][2]))
             if not (isinstance(newv, tuple) and newv[0] == "satadd" and newv[1] == hv):
                 return False, "accumulator for %s is updated to %s, not saturating_add(acc, ..)" % (fld, short(newv))
             elem_q = newv[2]
